@@ -142,5 +142,16 @@ claim(
     TB + "; the data invariant 'last docstring line is not blank' (checked at Docstring.__init__) is used for the skip-blank loops; the "
     "partial-operation catalogue is the one listed in the rule, not every possible Python exception",
 )
+claim(
+    "C04",
+    "finite-domain abstract evaluation of the scope walk (Object/Function.resolve over a nest of module/class/nested class/method scopes), of "
+    "ExprName.path/canonical_path and of the relative-import arithmetic (against importlib.util.resolve_name), plus explicit-raise and "
+    "handler checks and chain-linking checks on the expression builders",
+    "The resolution tables are total over the abstract scope nest x name classes (own member, import, enclosing class member, enclosing object "
+    "name, __init__ parameter, unknown, module name) and over (depth, init?, level, module?) for relative imports; they are compared with "
+    "Python's scoping rule / importlib. Resolution raises only NameResolutionError and the expression side swallows it. Resolution over "
+    "generated multi-module packages is not decided.",
+    TB + "; the reference scoping rule is written in the rule module (class scopes do not nest; functions see their class body)",
+)
 for _p in [f"C{n:02d}" for n in range(1, 20) if f"C{n:02d}" not in CLAIMED]:
     NOT_YET[_p] = "check under construction in this round (static rules designed in DESIGN.md section 3; not yet registered)"
